@@ -583,6 +583,15 @@ class Model:
             for k, want in expect.items():
                 c = m.classes.get(k)
                 pm = c.methods.get("populate_class_members") if c else None
+                if k == "Choice" and c is not None:
+                    # the populating method of a group member is the one the group calls on each of its choices, whatever its name
+                    zpm_ = m.classes.get("ZeroOrOneChoice").methods.get("populate_class_members") if m.classes.get("ZeroOrOneChoice") else None
+                    for lp_ in [x for x in ast.walk(zpm_.node) if isinstance(x, ast.For)] if zpm_ else []:
+                        for c_ in ast.walk(lp_):
+                            if isinstance(c_, ast.Call) and isinstance(c_.func, ast.Attribute) and isinstance(lp_.target, ast.Name) \
+                                    and dotted(c_.func.value) == lp_.target.id and c_.func.attr in c.methods:
+                                pm = c.methods[c_.func.attr]
+                                self.choice_populator = c_.func.attr
                 if pm is None:
                     raise AnalysisError("anchor vanished: xmlchemy.%s.populate_class_members" % k)
                 have = {n.func.attr for n in ast.walk(pm.node)
@@ -595,7 +604,7 @@ class Model:
             pm = m.classes["ZeroOrOneChoice"].methods["populate_class_members"]
             # whatever the signature: the argument bound to the parameter Choice.populate_class_members stores as its own
             # `_successors` is the group's `self._successors`
-            cpm = m.classes["Choice"].methods.get("populate_class_members")
+            cpm = m.classes["Choice"].methods.get(getattr(self, "choice_populator", "populate_class_members"))
             succ_param = None
             for n in ast.walk(cpm.node) if cpm else []:
                 if isinstance(n, ast.Assign) and dotted(n.targets[0]) == "self._successors" and isinstance(n.value, ast.Name):
@@ -603,7 +612,7 @@ class Model:
             okc, seen_call = False, False
             cps = ([a.arg for a in cpm.node.args.args][1:] if cpm else [])
             for n in ast.walk(pm.node):
-                if isinstance(n, ast.Call) and isinstance(n.func, ast.Attribute) and n.func.attr == "populate_class_members" \
+                if isinstance(n, ast.Call) and isinstance(n.func, ast.Attribute) and n.func.attr == getattr(self, "choice_populator", "populate_class_members") \
                         and dotted(n.func.value) not in ("super()",) and not (isinstance(n.func.value, ast.Call)):
                     seen_call = True
                     bound = dict(zip(cps, n.args))
@@ -700,6 +709,17 @@ class Model:
                                         and isinstance(a.targets[0], ast.Name):
                                     res = a.targets[0].id
                             return ("doc-order", res) if allow_inline else "doc-order"
+            if isinstance(n, ast.Return) and not allow_inline and isinstance(n.value, ast.Call) and dotted(n.value.func) == "next" \
+                    and len(n.value.args) == 2 and isinstance(n.value.args[0], ast.GeneratorExp) \
+                    and isinstance(n.value.args[1], ast.Constant) and n.value.args[1].value is None:
+                # a search helper that hands out `next((c for c in self if c.tag in names), None)`
+                g = n.value.args[0]
+                if len(g.generators) == 1 and child_iter(g.generators[0].iter) and isinstance(g.generators[0].target, ast.Name) \
+                        and isinstance(g.elt, ast.Name) and g.elt.id == g.generators[0].target.id and len(g.generators[0].ifs) == 1:
+                    c = g.generators[0].ifs[0]
+                    if isinstance(c, ast.Compare) and len(c.ops) == 1 and isinstance(c.ops[0], ast.In) \
+                            and dotted(c.left) == "%s.tag" % g.generators[0].target.id and names_from_varargs(c.comparators[0]):
+                        return "doc-order"
             if isinstance(n, ast.Assign) and isinstance(n.value, ast.Call) and dotted(n.value.func) == "next" \
                     and n.value.args and isinstance(n.value.args[0], ast.GeneratorExp) and len(n.targets) == 1 \
                     and isinstance(n.targets[0], ast.Name):
